@@ -10,7 +10,9 @@ PROPS = {
         "kind": "c06",
         "module": "Props.C06",
         "namespace": "Jl.C06",
-        "extra_theorem_files": [("Proofs.RowSerial", "Jl.RowSerial"), ("Proofs.RowTie", "Jl.RowTie"), ("Proofs.RowTieAll", "Jl.RowTie")],
+        "extra_theorem_files": [("Proofs.RowTie", "Jl.RowTie"), ("Proofs.RowTieAll", "Jl.RowTie")],
+        "supplement": "Props.C06S",
+        "supplement_theorem_files": [("Proofs.RowSerial", "Jl.RowSerial")],
         "rule": ("histories of row mutators over the key alphabet {'', a, ab, b, é, a.b}: every history of length "
                  "1 and 2 (thorough: 3) over a fixed op alphabet, plus random histories of length 3-60; after every "
                  "step Len, IterValues, Has, Get, GetValueAtIndex(-1..len) and the key order of MarshalJSON are "
@@ -93,7 +95,9 @@ PROPS = {
         "jl": True,
         "module": "Props.C01",
         "namespace": "Jl.C01",
-        "extra_theorem_files": [("Proofs.JsonQuote", "Jl.JsonQuote"), ("Proofs.JsonPrint", "Jl.JsonPrint"), ("Proofs.ExportText", "Jl.ExportText"), ("Proofs.RowTieMarshal", "Jl.RowTie"), ("Proofs.FlowTieExport", "Jl.FlowTie")],
+        "extra_theorem_files": [("Proofs.JsonQuote", "Jl.JsonQuote"), ("Proofs.JsonPrint", "Jl.JsonPrint"), ("Proofs.RowTieMarshal", "Jl.RowTie"), ("Proofs.FlowTieExport", "Jl.FlowTie")],
+        "supplement": "Props.C01S",
+        "supplement_theorem_files": [("Proofs.ExportText", "Jl.ExportText")],
         "rule": ("one input line through importer (template ti) and exporter (template to) as jl does, and Go values handed to Export "
                  "through the API (maps, slices, rows): random templates (0-5 columns, 9 formats x 18 raw types, hidden anywhere, "
                  "sub-rows to depth 3) with keys from every class the writer treats differently (controls, quotes, backslash, DEL, C1, "
@@ -115,7 +119,9 @@ PROPS = {
         "jl": True,
         "module": "Props.C03",
         "namespace": "Jl.C03",
-        "extra_theorem_files": [("Proofs.Order", "Jl.Order"), ("Proofs.LineKeys", "Jl.LineLevel"), ("Proofs.LineValues", "Jl.LineValues"), ("Proofs.RowTie", "Jl.RowTie"), ("Proofs.FlowTie", "Jl.FlowTie"), ("Proofs.RowTieMarshal", "Jl.RowTie")],
+        "extra_theorem_files": [("Proofs.Order", "Jl.Order"), ("Proofs.LineKeys", "Jl.LineLevel"), ("Proofs.RowTie", "Jl.RowTie"), ("Proofs.FlowTie", "Jl.FlowTie"), ("Proofs.RowTieMarshal", "Jl.RowTie")],
+        "supplement": "Props.C03S",
+        "supplement_theorem_files": [("Proofs.LineValues", "Jl.LineValues")],
         "rule": ("templates with 0-6 columns in non-alphabetical order (names incl. '', 'é', 'a.b'), hidden anywhere, sub-rows to depth 3; "
                  "input and output template share names and structure as jl builds them; inputs: every permutation of the declared keys "
                  "(<= 4 keys; thorough 5), missing keys, extra keys, objects/arrays with >= 2 members in non-alphabetical order under "
@@ -132,7 +138,7 @@ PROPS = {
         "jl": True,
         "module": "Props.C04",
         "namespace": "Jl.C04",
-        "extra_theorem_files": [("Proofs.TimeShape", "Jl.TimeShape"), ("Proofs.LineLevel", "Jl.LineLevel"), ("Proofs.ValueTie", "Jl.ValueTie"), ("Proofs.FlowTie", "Jl.FlowTie")],
+        "extra_theorem_files": [("Proofs.TimeShape", "Jl.TimeShape"), ("Proofs.LineLevel", "Jl.LineLevel"), ("Proofs.ValueTie", "Jl.ValueTie"), ("Proofs.FlowTie", "Jl.FlowTie"), ("Proofs.FlowTieBuilders", "Jl.FlowTie")],
         "rule": ("9 output formats x (18 raw types + none) x 9 x 19 input descriptors (sampled) x ~85 JSON values (null, booleans, numbers "
                  "of every spelling and magnitude incl. 1e400, 30 digits, timestamps around years 0, 1970, 9999, 10000, +-2^63; strings "
                  "incl. numeric / boolean / base64 / date / date-time look-alikes and near-misses; arrays; objects), at top level and inside a "
@@ -163,7 +169,9 @@ PROPS = {
         "jl": True,
         "module": "Props.C16",
         "namespace": "Jl.C16",
-        "extra_theorem_files": [("Proofs.JsonAccept", "Jl.JsonAcc"), ("Proofs.JsonLexical", "Jl.JsonLex"), ("Proofs.LineAccept", "Jl.LineAccept"), ("Proofs.FlowTieImport", "Jl.FlowTie"), ("Proofs.RowTieText", "Jl.RowTie")],
+        "extra_theorem_files": [("Proofs.JsonAccept", "Jl.JsonAcc"), ("Proofs.JsonLexical", "Jl.JsonLex"), ("Proofs.FlowTieImport", "Jl.FlowTie"), ("Proofs.RowTieText", "Jl.RowTie")],
+        "supplement": "Props.C16S",
+        "supplement_theorem_files": [("Proofs.LineAccept", "Jl.LineAccept")],
         "rule": ("~90 hand-written texts (every rejection class named by the property, truncations, trailing content, comments, BOM, NUL, "
                  "vertical tab, form feed, NBSP, 70 KB string) and, per random valid object: the object, a truncation at a random offset, a "
                  "1-3 byte mutation (insert / delete / replace from the structural alphabet plus control and non-UTF-8 bytes), trailing "
@@ -180,7 +188,9 @@ PROPS = {
         "jl": True,
         "module": "Props.C07",
         "namespace": "Jl.C07",
-        "extra_theorem_files": [("Proofs.Scanner", "Jl.Scanner"), ("Proofs.Stream", "Jl.Stream"), ("Proofs.StreamAccept", "Jl.StreamAccept"), ("Proofs.FlowTieStream", "Jl.FlowTie"), ("Proofs.FlowTieImport", "Jl.FlowTie")],
+        "extra_theorem_files": [("Proofs.Scanner", "Jl.Scanner"), ("Proofs.Stream", "Jl.Stream"), ("Proofs.FlowTieStream", "Jl.FlowTie"), ("Proofs.FlowTieImport", "Jl.FlowTie")],
+        "supplement": "Props.C07S",
+        "supplement_theorem_files": [("Proofs.StreamAccept", "Jl.StreamAccept")],
         "rule": ("streams of 0-7 lines drawn from valid objects, blank lines, invalid JSON, non-object values, lines rejected by the template "
                  "and trailing-content lines, with LF / CRLF / missing final newline, delivered by readers returning 1-byte, 3-, 7-byte, "
                  "mixed-with-empty-reads, 64-, 1000-byte and whole-buffer chunks, under the default and the tolerant processor; line "
@@ -229,7 +239,9 @@ PROPS = {
         "kind": "c18",
         "module": "Props.C18",
         "namespace": "Jl.C18",
-        "extra_theorem_files": [("Proofs.PathRoundTrip", "Jl.PathRoundTrip"), ("Proofs.RowTieText", "Jl.RowTie")],
+        "extra_theorem_files": [("Proofs.RowTieText", "Jl.RowTie")],
+        "supplement": "Props.C18S",
+        "supplement_theorem_files": [("Proofs.PathRoundTrip", "Jl.PathRoundTrip")],
         "rule": ("5 documents (objects nested to depth 6, arrays of objects, mixed arrays, nested arrays, nulls, empty keys) given as JSON "
                  "text, as the equivalent programmatic construction, and mixed (a built row holding a parsed row holding built values); "
                  "GetValueAtPath/GetAtPath and FindValuesAtPath for every path of 1 and 2 segments over a 28-key alphabet plus 33 "
